@@ -8,6 +8,10 @@
 //   json_drv nest <step>                          nesting depth 0..600 (arrays, objects, mixed)
 //   json_drv trees <n> <shard>                    API-built trees printed (3 APIs x compact/readable x 2 locales) and re-parsed twice
 //   json_drv get                                  typed extraction at the type limits
+//   json_drv keys <n> <shard>                     objects with 2..6 adversarial member names (embedded NUL at every position, names equal up to a NUL /
+//                                                 a multi-byte character / a byte >= 0x80 and different after it, prefixes of each other, empty, differing in
+//                                                 the last byte, > 16 and > 256 bytes): parsed from text (top level and nested, + retrieval of every member),
+//                                                 built through operator[] (Build{ops,t,got}) and printed / re-parsed
 //   json_drv long <ndocs> <shard>                 documents of 1..30 KiB and a few mutations of each (Sound / Untouched / RoundTrip only)
 //
 // Trees: {"k":"null"|"true"|"false"|"undef"} {"k":"num","n":%.17g,"p":%.16g,"s":%.15g (byte arrays)} {"k":"str","s":bytes}
@@ -479,6 +483,111 @@ static void run_get()
 	}
 }
 
+// ------------------------------------------------------------------ adversarial member names
+static std::string key_literal(std::string const &k)
+{
+	std::string s="\""; char b[16];
+	for(size_t i=0;i<k.size();i++) {
+		unsigned char c=k[i];
+		if(c=='"' || c=='\\') { s+='\\'; s+=char(c); }
+		else if(c<0x20) { snprintf(b,sizeof(b),"\\u%04x",c); s+=b; }
+		else if(c<0x7f && (*R)(12)==0) { snprintf(b,sizeof(b),"\\u%04X",c); s+=b; }
+		else s+=char(c);
+	}
+	return s+"\"";
+}
+// a family of names that share everything up to (and including) a separator
+static std::vector<std::string> key_family(bool text)
+{
+	static char const *pre[]={"","k","id","ab","\xc3\xa9","z","\x7f","key-longer-than-16-bytes-"};
+	std::vector<std::string> seps;
+	seps.push_back(std::string(1,'\0')); seps.push_back("\xc3\xa9"); seps.push_back("\xc2\x80"); seps.push_back("\xef\xbf\xbf");
+	seps.push_back("\xf0\x9f\x98\x80"); seps.push_back("a"); seps.push_back("\x7f"); seps.push_back(std::string("\0\0",2)); seps.push_back("\x01");
+	if(!text) { seps.push_back("\x80"); seps.push_back("\xff"); seps.push_back("\xc3"); }   // not UTF-8: API-built objects only
+	std::string p=pre[(*R)(8)];
+	if((*R)(8)==0) p=std::string(250+(*R)(60),'L')+p;                                  // > 256 bytes in front of the interesting part
+	std::string sp=seps[(*R)(seps.size())];
+	std::vector<std::string> f;
+	f.push_back(p+sp+"x"); f.push_back(p+sp+"y"); f.push_back(p+sp); f.push_back(p); f.push_back(p+sp+"x"+sp); f.push_back(sp+p);
+	f.push_back(p+sp+"x"+sp+"1"); f.push_back(p+sp+"x"+sp+"2"); f.push_back(sp); f.push_back(p+"x"); f.push_back(std::string()); f.push_back(p+sp+sp);
+	f.push_back(p+"\xc3\xa9"); f.push_back(p+"z"); f.push_back(p+"\x7f"); f.push_back(p+std::string(1,'\0'));
+	// distinct, in random order, 2..6 of them
+	std::vector<std::string> out; unsigned want=2+(*R)(5);
+	for(int tries=0;tries<60 && out.size()<want;tries++) {
+		std::string const &c=f[(*R)(f.size())]; bool dup=false;
+		for(size_t i=0;i<out.size();i++) if(out[i]==c) dup=true;
+		if(!dup) out.push_back(c);
+	}
+	return out;
+}
+static void keys_parse(std::vector<std::string> const &ks)
+{
+	std::string obj="{";
+	for(size_t i=0;i<ks.size();i++) { char b[16]; snprintf(b,sizeof(b),"%zu",i+1); if(i) obj+=","; obj+=key_literal(ks[i])+":"+((*R)(3)?std::string(b):"\"v"+std::string(b)+"\""); }
+	obj+="}";
+	int shape=(*R)(4);
+	std::string doc = shape==0 ? obj : shape==1 ? "["+obj+"]" : shape==2 ? "{\"o\":"+obj+"}" : "{\"a\":[1,"+obj+"]}";
+	for(int a=0;a<2;a++) {
+		int k=napi++%5; int api=k==0?0:k==1?1:k==2?2:k==3?0:1; bool full=k<2;
+		json::value before=sentinel();
+		presult r=do_parse(doc,api,api==2?false:full,before,false);
+		vt::J j; j.s("e","Parse").s("api",api_name(api)).b("full",api==2?false:full).s("cls","keys").bytes("b",doc).b("ok",r.ok)
+		 .raw("t0",tree(before)).raw("t1",tree(r.after));
+		if(r.used>=0) j.i("used",r.used);
+		if(r.ok) {
+			json::value const *o=&r.after;
+			try {
+				if(shape==1) o=&(*o)[size_t(0)]; else if(shape==2) o=&(*o)["o"]; else if(shape==3) o=&(*o)["a"][size_t(1)];
+				if(o->type()==json::is_object) {
+					std::string look="[";
+					for(size_t i=0;i<ks.size();i++) {
+						bool found=false; json::value got;
+						if(i%2==0) { json::object::const_iterator p=o->object().find(ks[i]); if(p!=o->object().end()) { found=true; got=p->second; } }
+						else { try { got=(*o)[ks[i]]; found=true; } catch(json::bad_value_cast const &) {} }
+						if(i) look+=",";
+						look+="{\"key\":"+jbytes(ks[i])+",\"found\":"+(found?"true":"false")+",\"v\":"+tree(got)+"}";
+					}
+					j.raw("look",look+"]").raw("lookobj",tree(*o));
+				}
+			} catch(std::exception const &) {}
+		}
+		emit(j.str());
+	}
+}
+static bool utf8_ok(std::string const &s) { json::value v=s; std::string t=v.save(); json::value w; char const *b=t.c_str(),*p=b; return w.load(p,b+t.size(),true); }
+static void keys_build(std::vector<std::string> ks,int depth)
+{
+	// some names assigned twice (the last assignment wins)
+	size_t n=ks.size(); for(size_t i=0;i<n;i++) if((*R)(4)==0) ks.push_back(ks[i]);
+	json::value v; int how=(*R)(3);
+	if(how==2) v=json::object();
+	std::string ops="[";
+	for(size_t i=0;i<ks.size();i++) {
+		if(how==0) v[ks[i]]=int(i+1);
+		else if(how==1) { json::value &slot=v[ks[i]]; slot=int(i+1); }
+		else v.object()[string_key(ks[i])]=int(i+1);
+		char b[32]; snprintf(b,sizeof(b),"%zu",i+1);
+		if(i) ops+=","; ops+="{\"key\":"+jbytes(ks[i])+",\"v\":"+b+"}";
+	}
+	ops+="]";
+	json::value const &cv=v; std::vector<int> got;
+	for(size_t i=0;i<ks.size();i++) { int g=-1; try { g=cv[ks[i]].get_value<int>(); } catch(std::exception const &) {} got.push_back(g); }
+	emit(vt::J().s("e","Build").s("api",how==0?"[]=":how==1?"[]&":"object()[]").raw("ops",ops).raw("t",tree(v)).a("got",got).str());
+	bool printable=true; for(size_t i=0;i<ks.size();i++) if(!utf8_ok(ks[i])) printable=false;
+	if(printable) {
+		json::value w=v;
+		if(depth==1) { json::value outer; outer["in"]=v; outer["list"][1]=v; w=outer; }
+		for(int api=0;api<3;api++) for(int rd=0;rd<2;rd++) { if(api==2 && rd) continue; if((*R)(2)) print_event(w,api,rd==1,false,"keys"); }
+	}
+}
+static void run_keys(int n)
+{
+	for(int i=0;i<n;i++) {
+		keys_parse(key_family(true));
+		keys_build(key_family(i%3!=0),i%2);
+	}
+}
+
 // ------------------------------------------------------------------ long documents
 static void run_long(int ndocs)
 {
@@ -519,6 +628,7 @@ int main(int argc,char **argv)
 	else if(mode=="trees") run_trees(a1);
 	else if(mode=="get") run_get();
 	else if(mode=="long") run_long(a1);
+	else if(mode=="keys") run_keys(a1);
 	else { fprintf(stderr,"unknown mode\n"); return 2; }
 	tr.line("{\"e\":\"Reset\"}");
 	tr.close();
